@@ -196,6 +196,16 @@ def run(chk):
         if r != "err err err err err err written=0":
             chk.violate({"kind": "property", "case": lib.show_case(c), "impl": r,
                          "explanation": "marshalling nil (Marshal / Encode / ConvertToParagraph of a nil pointer, of nil, of a slice holding a nil pointer) panicked or did not fail"})
+    # a struct-typed field tagged control:"-" whose own fields are named like fields of the document: not written, and not
+    # touched by the decoder either
+    kc = [("cskipstruct", [a, b]) for a, b in ((b"hello", b"large"), (b"x", b"12"), (b"only", b""))]
+    for c, r in zip(kc, chk.run_impl(kc)):
+        a, b = c[1]
+        text = (b"Source: " + a + b"\n" if a else b"") + (b"Size: " + b + b"\n" if b else b"")
+        want = "ok x%s x%s x%s x%s x%s 3" % (text.hex(), a.hex(), b.hex(), b"disk".hex(), b"/srv/incoming".hex())
+        if r != want:
+            chk.violate({"kind": "property", "case": lib.show_case(c), "impl": r[:300], "expected": want,
+                         "explanation": "a skipped (control:\"-\") struct-typed field was written, or was filled in / tripped over by the decoder"})
     # LONG values: a single line of 4095 ... 131072 bytes in a string field, in a multi-line field (between short lines), in a
     # joined list and in an unknown field of the embedded paragraph round-trips like any other (implementation only: the
     # extracted model's list reversal is quadratic)
